@@ -19,7 +19,15 @@ from .. import codec, real, cases, ports
 from ..lean import Driver
 from . import c01
 
-DEFS = {(v.code, v.rule) for k, v in vars(cerr).items() if isinstance(v, cerr.ErrorDefinition)}
+# the documented error definitions (docs/errors.rst, "API error codes"): code -> rule.  Deliberately a table
+# of its own and not read from the live module: a definition that changed is a finding, not a new truth.
+DEFS = {(0x00, None), (0x02, 'required'), (0x03, None), (0x04, 'dependencies'), (0x05, 'dependencies'), (0x06, 'excludes'),
+        (0x22, 'empty'), (0x23, 'nullable'), (0x24, 'type'), (0x25, 'schema'), (0x26, 'items'), (0x27, 'minlength'),
+        (0x28, 'maxlength'), (0x41, 'regex'), (0x42, 'min'), (0x43, 'max'), (0x44, 'allowed'), (0x45, 'allowed'),
+        (0x46, 'forbidden'), (0x47, 'forbidden'), (0x48, 'contains'), (0x61, 'coerce'), (0x62, 'rename_handler'),
+        (0x63, 'readonly'), (0x64, 'default_setter'), (0x81, 'schema'), (0x82, 'schema'), (0x83, 'keysrules'),
+        (0x84, 'valuesrules'), (0x8f, 'items'), (0x90, None), (0x91, 'noneof'), (0x92, 'oneof'), (0x93, 'anyof'),
+        (0x94, 'allof')}
 MISSING = object()
 
 
